@@ -143,13 +143,23 @@ def St.left (s : St) : Int := s.len - s.pos
 /-- bitio.BitsByteCount -/
 def bitsByteCount (n : Int) : Int := if n % 8 = 0 then n / 8 else n / 8 + 1
 
-/-- decode.go:388 TryBits (fresh decoder: the shared read buffer is empty, so SharedReadBuf
-    allocates `make([]byte, n)` whenever n > 0 — decode.go:316-324) -/
-def tryBits (s : St) (n : Int) : Try St :=
+/-- decode.go TryBits as it was before 8465c2ad (fresh decoder: the shared read buffer is empty, so
+    SharedReadBuf allocated `make([]byte, BitsByteCount(nBits))` whenever that is > 0) -/
+def tryBitsOld (s : St) (n : Int) : Try St :=
   if n < 0 then .err
   else if bitsByteCount n > 0 ∧ makesliceFault (bitsByteCount n) = true then .fault "makeslice-out-of-range"
   else if n > s.left then .err
   else .ok { s with pos := s.pos + n }
+
+/-- decode.go:389 TryBits (since 8465c2ad): the buffer is clamped to what is left (+8 bytes) before
+    SharedReadBuf allocates it -/
+def tryBits (s : St) (n : Int) : Try St :=
+  if n < 0 then .err
+  else
+    let nBytes := min (bitsByteCount n) (bitsByteCount (max s.left 0) + 8)
+    if nBytes > 0 ∧ makesliceFault nBytes = true then .fault "makeslice-out-of-range"
+    else if n > s.left then .err
+    else .ok { s with pos := s.pos + n }
 
 /-- decode.go:411 -/
 def tryUintBits (s : St) (n : Int) : Try St :=
@@ -159,8 +169,8 @@ def tryUintBits (s : St) (n : Int) : Try St :=
 def tryU (s : St) (n : Int) : Try St :=
   if n < 0 then .err else tryUintBits s n
 
-/-- decode.go:575 TryBytesLen: allocates BEFORE looking at the buffer -/
-def tryBytesLen (s : St) (n : Int) : Try St :=
+/-- TryBytesLen before 8465c2ad: `make([]byte, nBytes)` BEFORE looking at the buffer -/
+def tryBytesLenOld (s : St) (n : Int) : Try St :=
   if makesliceFault n then .fault "makeslice-out-of-range"
   else
     let nBits := wrap64 (n * 8)
@@ -168,16 +178,40 @@ def tryBytesLen (s : St) (n : Int) : Try St :=
     else if nBits > s.left then .err
     else .ok { s with pos := s.pos + nBits }
 
-/-- decode.go:555 TryBytesRange (position unchanged).
-    Quirk kept: bitio.readFull returns the number of bits NOT read together with the error
-    (bitio.go:219/231), and TryBytesRange clears the error when that number equals the request
-    (`if n == int64(nBytes)*8 { err = nil }`): when not a single bit can be read (offset at/after the
-    end, or negative) the call succeeds with zero bytes. Not a crash; reported as a by-product. -/
-def tryBytesRange (s : St) (off n : Int) : Try St :=
+def maxInt64 : Int := 9223372036854775807
+
+/-- decode.go:595 TryBytesLen (since 8465c2ad): negative / overflowing nBytes is an error, the
+    allocation is clamped to what is left (+8 bytes) -/
+def tryBytesLen (s : St) (n : Int) : Try St :=
+  if n < 0 ∨ n > maxInt64 / 8 then .err
+  else
+    let alloc := min n (bitsByteCount (max s.left 0) + 8)
+    if makesliceFault alloc then .fault "makeslice-out-of-range"
+    else if n * 8 > s.left then .err
+    else .ok { s with pos := s.pos + n * 8 }
+
+/-- TryBytesRange before 8465c2ad / edf89c74 (position unchanged): rejects n < 0, then allocates n.
+    Old quirk: `if n == int64(nBytes)*8 { err = nil }` compared the count of UNREAD bits with the request, so
+    when not a single bit could be read (offset at/after the end, or negative) the call returned n zero
+    bytes and no error (known finding bytesrange-outside-buffer-no-error, fixed by edf89c74). -/
+def tryBytesRangeOld (s : St) (off n : Int) : Try St :=
   if n < 0 then .err
   else if makesliceFault n then .fault "makeslice-out-of-range"
   else if n = 0 then .ok s
   else if off < 0 ∨ off ≥ s.len then .ok s
+  else if off + n * 8 > s.len then .err
+  else .ok s
+
+/-- decode.go:562 TryBytesRange (since 8465c2ad and edf89c74; position unchanged): a request for more than
+    the whole buffer holds (+8 bytes) is an error before anything is allocated; a range that is not inside
+    the buffer is an error (bitio.readFull returns the number of bits NOT read together with the error; the
+    error is now cleared only when that number is 0). -/
+def tryBytesRange (s : St) (off n : Int) : Try St :=
+  if n < 0 then .err
+  else if n > s.len / 8 + 8 then .err
+  else if makesliceFault n then .fault "makeslice-out-of-range"
+  else if n = 0 then .ok s
+  else if off < 0 ∨ off ≥ s.len then .err
   else if off + n * 8 > s.len then .err
   else .ok s
 
@@ -208,9 +242,13 @@ def tryBitBufLen (s : St) (n : Int) : Try St :=
   | .fault w => .fault w
   | .ok _ => trySeekRel s n
 
-/-- decode.go:690 TryAlignBits: `(nBits - pos % nBits) % nBits` -/
-def tryAlignBits (s : St) (n : Int) : Try St :=
+/-- TryAlignBits before 8465c2ad: `(nBits - pos % nBits) % nBits` with nBits = 0 -/
+def tryAlignBitsOld (s : St) (n : Int) : Try St :=
   if n = 0 then .fault "integer-divide-by-zero" else .ok s
+
+/-- decode.go:720 TryAlignBits (since 8465c2ad): nBits <= 0 is an error -/
+def tryAlignBits (s : St) (n : Int) : Try St :=
+  if n ≤ 0 then .err else .ok s
 
 /-- the primitives of the core run (harness/cmd/c06/core.go), called with an arbitrary integer -/
 inductive Prim where
@@ -268,28 +306,22 @@ def corePrim (p : Prim) (s : St) (a : Int) : Outcome St :=
     if s.force then .ok s
     else if s.left < a then .panic .decoderError else .ok s
 
-/-- primitives that allocate from their argument before (or without) checking it against the buffer,
-    or divide by it: NOT safe for all arguments on the current tree (known findings) -/
-def Prim.unsafeArg : Prim → Bool
+/-- primitives that, before 8465c2ad, allocated from their argument before (or without) checking it
+    against the buffer, or divided by it -/
+def Prim.wasUnsafe : Prim → Bool
   | .bits | .byteslen | .bytesrange | .peekbytes | .alignbits => true
   | _ => false
 
-/-- the core after the proposed repair (/verif/fixes/proposed/C06_decode_core_check_before_alloc_alignbits_zero.patch):
-    the allocating readers clamp their buffer to what is left, so what was a runtime fault becomes the
-    IOError of the failing read; AlignBits rejects nBits <= 0. Kept so that the driver recognises the fix
-    (it accepts the current OR the repaired prediction for the five unsafe primitives only). -/
-def corePrimRepaired (p : Prim) (s : St) (a : Int) : Outcome St :=
+/-- the core as it was before 8465c2ad "fix: decode: don't allocate by unchecked lengths, AlignBits with
+    zero is an error" — kept for the regression witnesses of Props/C06.lean -/
+def corePrimOld (p : Prim) (s : St) (a : Int) : Outcome St :=
   match p with
-  | .alignbits => if a ≤ 0 then .panic .ioError else .ok s
-  | .bytesrange =>      -- the patch refuses what the whole buffer cannot hold before allocating
-    if a > s.len / 8 + 8 then .panic .ioError
-    else match corePrim .bytesrange s a with
-      | .panic (.runtime _) => .panic .ioError
-      | o => o
-  | _ =>
-    match corePrim p s a with
-    | .panic (.runtime _) => .panic .ioError
-    | o => o
+  | .bits => must (tryBitsOld s a)
+  | .byteslen => must (tryBytesLenOld s a)
+  | .bytesrange => must (tryBytesRangeOld s s.pos a)
+  | .peekbytes => must (match tryBytesLenOld s a with | .ok _ => .ok s | .err => .err | .fault w => .fault w)
+  | .alignbits => must (tryAlignBitsOld s a)
+  | p => corePrim p s a
 
 /-- `o` raises only recoverable values -/
 def OnlyRec {α : Type} (o : Outcome α) : Prop := ∀ v, o = .panic v → v.recoverable = true
